@@ -44,6 +44,27 @@ import "github.com/glebziz/fs_db/internal/model"
 //@   ensures others:   forall g *model.File :: g != f ==> g.Key == old(g.Key) && g.TxId == old(g.TxId) && g.ContentId == old(g.ContentId) && g.Seq == old(g.Seq)
 //@   modifies model.File.*
 
+// GetAll decodes every stored record: never panics, fails only on a record the
+// decoder rejects, and on failure returns no files.
+//@ func (*Repo).GetAll
+//@   requires wf:      r != nil && r.p != nil
+//@   ensures  onerror: result1 != nil ==> len(result0) == 0
+//@ loop (*Repo).GetAll#1
+//@   invariant idx:    -1 <= rangeindex && rangeindex + 1 <= len(items) && len(files) == len(items)
+//@   invariant zeroed: forall k int :: rangeindex < k && k < len(files) ==> files[k].Key == ""
+//@   decreases len(items) - rangeindex
+
+//@ func (*Repo).key
+//@   ensures prefix: len(result) == 5 + len(contentId)
+//@   ensures bytes:  result[0] == 102 && result[1] == 105 && result[2] == 108 && result[3] == 101 && result[4] == 47
+//@   ensures id:     forall i int :: 0 <= i && i < len(contentId) ==> result[5+i] == contentId[i]
+
+// Set writes exactly marshalFile's bytes under the record key; a record that
+// cannot be encoded is reported, never written.
+//@ func (*Repo).Set
+//@   requires wf:       r != nil && r.p != nil
+//@   ensures  badids:   (!uuidValid(f.TxId) || !uuidValid(f.ContentId)) ==> result != nil && is(result, model.ErrInvalidFileFormat)
+
 // Round trip (lemma over the two contracts above; calls use contracts only):
 // every record with canonical ids decodes to exactly what was encoded.
 //@ func lemmaRoundTrip
